@@ -117,8 +117,6 @@ def main(run: core.Run) -> None:
                     fid = "C04-D7"
                 if not fid and "C04-D4" in open_ids and R.classify_c04d4(m, api, opts, d, run.rng, meta["init_inputs"]):
                     fid = "C04-D4"
-                if not fid and "C04-D14" in open_ids and " raised " in d and C.pred_c04d14(api, m, opts):
-                    fid = "C04-D14"
                 if fid:
                     stats[f"known_{fid}_in_stream"] += 1
                     continue
@@ -127,12 +125,8 @@ def main(run: core.Run) -> None:
     # ---- rules introducing a new domain, matching only inside subgraphs / functions / main graph
     rule_failures = []
     for desc, d in R.custom_rule_stream(run, stats):
-        if "C04-D11" in open_ids and R.pred_c04d11(desc):
-            stats["known_C04-D11_in_stream"] += 1
-            if not stats["reported_C04-D11"]:
-                stats["reported_C04-D11"] += 1
-                run.known("C04-D11", f"rewrite(user rule Identity(x) -> x, match in the {desc['where']} branch): {d}".replace("\n", " "))
-            continue
+        # C04-D11 (aef7e04) and C04-D15 (f8abc79) are fixed: every failure of the user-rule stream is a violation; a rewrite that
+        # does not return within the watchdog is a failure of the case
         rule_failures.append((desc, d))
     # ---- directed families of the round-3 findings (old opsets, If in function bodies, Identity onto declared inputs)
     rule_failures += R.round3_stream(run, stats, open_ids)
